@@ -71,3 +71,85 @@ package dtls
 //@ ensures f-SessionID: bytesEq(s.SessionID, serialized.SessionID)
 //@ ensures f-NegotiatedProtocol: s.NegotiatedProtocol == serialized.NegotiatedProtocol
 //@ end
+
+// generateState: snapshot of the DTLS 1.2 connection state. The record sequence number that is
+// exported is the local counter of the *current local epoch* (the next number to use), so that
+// the resumed connection continues without reusing a number.
+
+//@ define IS(x) x.Common
+//@ define IVER(x) x.Common.LocalVersion
+
+//@ func generateState
+//@ watch CipherSuite.ID
+//@ requires args: internalState != nil && internalState.Common != nil
+//@ requires seq-allocated: int(internalState.Common.LocalEpoch()) < len(internalState.Common.LocalSequenceNumber)
+//@ ensures no-suite: isNil(IS(internalState).CipherSuite) ==> result0 == nil && result1 != nil
+//@ ensures dtls13-refused: !isNil(IS(internalState).CipherSuite) && V13(IVER(internalState)) ==> result0 == nil && sameRef(result1, ErrStateSerializationUnsupported)
+//@ ensures otherwise-ok: !isNil(IS(internalState).CipherSuite) && !V13(IVER(internalState)) ==> result0 != nil && result1 == nil
+//@ ensures f-sequenceNumber: result1 == nil ==> result0.sequenceNumber == IS(internalState).LocalSequenceNumber[IS(internalState).LocalEpoch()]
+//@ ensures f-localEpoch: result1 == nil ==> result0.localEpoch == IS(internalState).LocalEpoch()
+//@ ensures f-remoteEpoch: result1 == nil ==> result0.remoteEpoch == IS(internalState).RemoteEpoch()
+//@ ensures f-localRandom: result1 == nil ==> forall(0, 28, func(i int) bool { return result0.localRandom.RandomBytes[i] == IS(internalState).LocalRandom.RandomBytes[i] })
+//@ ensures f-localRandom-time: result1 == nil ==> result0.localRandom.GMTUnixTime == IS(internalState).LocalRandom.GMTUnixTime
+//@ ensures f-remoteRandom: result1 == nil ==> forall(0, 28, func(i int) bool { return result0.remoteRandom.RandomBytes[i] == IS(internalState).RemoteRandom.RandomBytes[i] })
+//@ ensures f-remoteRandom-time: result1 == nil ==> result0.remoteRandom.GMTUnixTime == IS(internalState).RemoteRandom.GMTUnixTime
+//@ ensures f-masterSecret: result1 == nil ==> bytesEq(result0.masterSecret, internalState.MasterSecret)
+//@ ensures f-srtpProtectionProfile: result1 == nil ==> result0.srtpProtectionProfile == IS(internalState).SRTPProtectionProfile()
+//@ ensures f-peerSRTPMKI: result1 == nil && result0.srtpProtectionProfile != 0 ==> bytesEq(result0.peerSRTPMKI, IS(internalState).RemoteSRTPMasterKeyIdentifier)
+//@ ensures f-peerSRTPMKI-none: result1 == nil && result0.srtpProtectionProfile == 0 ==> len(result0.peerSRTPMKI) == 0
+//@ ensures f-localConnectionID: result1 == nil ==> bytesEq(result0.localConnectionID, IS(internalState).LocalConnectionID())
+//@ ensures f-remoteConnectionID: result1 == nil ==> bytesEq(result0.remoteConnectionID, IS(internalState).RemoteConnectionID)
+//@ ensures f-rrcNegotiated: result1 == nil ==> result0.rrcNegotiated == IS(internalState).RRCNegotiated
+//@ ensures f-isClient: result1 == nil ==> result0.isClient == IS(internalState).IsClient
+//@ ensures f-version: result1 == nil ==> V12(result0.version)
+//@ ensures f-CipherSuiteID: result1 == nil ==> called("CipherSuite.ID") && result0.CipherSuiteID == retAs("CipherSuite.ID", 0, result0.CipherSuiteID)
+//@    && sameRef(argAs("CipherSuite.ID", 0, IS(internalState).CipherSuite), IS(internalState).CipherSuite)
+//@ ensures f-PeerCertificates: result1 == nil ==> sameSlice(result0.PeerCertificates, IS(internalState).PeerCertificates)
+//@ ensures f-IdentityHint: result1 == nil ==> bytesEq(result0.IdentityHint, IS(internalState).IdentityHint)
+//@ ensures f-SessionID: result1 == nil ==> bytesEq(result0.SessionID, IS(internalState).SessionID)
+//@ ensures f-NegotiatedProtocol: result1 == nil ==> result0.NegotiatedProtocol == IS(internalState).NegotiatedProtocol
+//@ ensures source-unchanged: IS(internalState).LocalEpoch() == old(IS(internalState).LocalEpoch())
+//@    && IS(internalState).LocalSequenceNumber[IS(internalState).LocalEpoch()] == old(IS(internalState).LocalSequenceNumber[IS(internalState).LocalEpoch()])
+//@ end
+
+// generateInternalState: inverse expansion. The per-epoch counter slice receives the exported
+// sequence number at index localEpoch (all lower epochs start at zero); arbitrary serialized
+// values (any epoch, any lengths) must not panic (implicit obligations of the append loop / index).
+
+//@ define RS(x) x.Common
+
+//@ func State.generateInternalState
+//@ watch ciphersuite.ForID State12.InitCipherSuite
+//@ ensures unset-suite: s.CipherSuiteID == 0 ==> result0 == nil && result1 != nil
+//@ ensures dtls13-refused: s.CipherSuiteID != 0 && V13(s.version) ==> result0 == nil && sameRef(result1, ErrStateSerializationUnsupported)
+//@ ensures ok-shape: result1 == nil ==> result0 != nil && RS(result0) != nil
+//@ ensures error-no-state: result1 != nil ==> result0 == nil
+//@ ensures init-ok: result1 == nil ==> called("State12.InitCipherSuite") && retErr("State12.InitCipherSuite", 0) == nil
+//@ ensures g-localEpoch: result1 == nil ==> RS(result0).LocalEpoch() == s.localEpoch
+//@ ensures g-remoteEpoch: result1 == nil ==> RS(result0).RemoteEpoch() == s.remoteEpoch
+//@ ensures g-sequenceNumber: result1 == nil ==> int(s.localEpoch) < len(RS(result0).LocalSequenceNumber) && RS(result0).LocalSequenceNumber[s.localEpoch] == s.sequenceNumber
+//@ ensures g-sequence-slice-exact: result1 == nil ==> len(RS(result0).LocalSequenceNumber) == int(s.localEpoch) + 1
+//@ ensures g-lower-epochs-zero: result1 == nil ==> forall(0, int(s.localEpoch), func(e int) bool { return RS(result0).LocalSequenceNumber[e] == 0 })
+//@ ensures g-localRandom: result1 == nil ==> forall(0, 28, func(i int) bool { return RS(result0).LocalRandom.RandomBytes[i] == s.localRandom.RandomBytes[i] })
+//@ ensures g-localRandom-time: result1 == nil ==> RS(result0).LocalRandom.GMTUnixTime == s.localRandom.GMTUnixTime
+//@ ensures g-remoteRandom: result1 == nil ==> forall(0, 28, func(i int) bool { return RS(result0).RemoteRandom.RandomBytes[i] == s.remoteRandom.RandomBytes[i] })
+//@ ensures g-remoteRandom-time: result1 == nil ==> RS(result0).RemoteRandom.GMTUnixTime == s.remoteRandom.GMTUnixTime
+//@ ensures g-masterSecret: result1 == nil ==> bytesEq(result0.MasterSecret, s.masterSecret)
+//@ ensures g-cipherSuite: result1 == nil ==> called("ciphersuite.ForID") && argAs("ciphersuite.ForID", 0, s.CipherSuiteID) == s.CipherSuiteID
+//@    && sameRef(RS(result0).CipherSuite, retAs("ciphersuite.ForID", 0, RS(result0).CipherSuite))
+//@ ensures g-srtpProtectionProfile: result1 == nil ==> RS(result0).SRTPProtectionProfile() == s.srtpProtectionProfile
+//@ ensures g-peerSRTPMKI: result1 == nil ==> bytesEq(RS(result0).RemoteSRTPMasterKeyIdentifier, s.peerSRTPMKI)
+//@ ensures g-localConnectionID: result1 == nil ==> bytesEq(RS(result0).LocalConnectionID(), s.localConnectionID)
+//@ ensures g-remoteConnectionID: result1 == nil ==> bytesEq(RS(result0).RemoteConnectionID, s.remoteConnectionID)
+//@ ensures g-rrcNegotiated: result1 == nil ==> RS(result0).RRCNegotiated == s.rrcNegotiated
+//@ ensures g-isClient: result1 == nil ==> RS(result0).IsClient == s.isClient
+//@ ensures g-version12: result1 == nil ==> V12(RS(result0).LocalVersion)
+//@ ensures g-PeerCertificates: result1 == nil ==> sameSlice(RS(result0).PeerCertificates, s.PeerCertificates)
+//@ ensures g-IdentityHint: result1 == nil ==> bytesEq(RS(result0).IdentityHint, s.IdentityHint)
+//@ ensures g-SessionID: result1 == nil ==> bytesEq(RS(result0).SessionID, s.SessionID)
+//@ ensures g-NegotiatedProtocol: result1 == nil ==> RS(result0).NegotiatedProtocol == s.NegotiatedProtocol
+//@ ensures source-unchanged: s.sequenceNumber == old(s.sequenceNumber) && s.localEpoch == old(s.localEpoch)
+//@ loop #1: bounded: len(RS(state).LocalSequenceNumber) <= int(s.localEpoch) + 1
+//@ loop #1: zeros: forall(0, len(RS(state).LocalSequenceNumber), func(e int) bool { return RS(state).LocalSequenceNumber[e] == 0 })
+//@ loop #1: kept: state != nil && RS(state) != nil && s.localEpoch == old(s.localEpoch) && s.sequenceNumber == old(s.sequenceNumber)
+//@ end
